@@ -165,16 +165,7 @@ theorem inv_controller_consume {cfg : Cfg} {c c' : CState} {r : Epr.Resp} (hI : 
       simp only
       apply Exec.inv_keepResp c.s app pos r.phys.toNat hI
       apply hres
-      -- a mapped position is only recorded for keep responses
-      obtain ⟨hd2, rest2, app2, m2, m1, used1, vq, prev, arr, arr2, _, _, _, _, hM, _, hO, _, _, hs⟩ :=
-        (Epr.tryHandle_yes hty).ex
-      subst hs
-      simp only [List.getLast?_append, List.getLast?_singleton, Option.some_or, Option.some.injEq] at hev
-      subst hev
-      cases hty' : r.ty with
-      | K => rfl
-      | M => have := (hM hty').2.2.1; simp only at hvq; rw [this] at hvq; cases hvq
-      | other => exact absurd hty' hO
+      exact Ctl.vq_some_is_keep (Epr.tryHandle_yes hty) hev hvq
   rw [hc']
   unfold commit
   refine Exec.inv_same hI1 ?_ (fun _ => Iff.rfl) rfl rfl
@@ -183,6 +174,100 @@ theorem inv_controller_consume {cfg : Cfg} {c c' : CState} {r : Epr.Resp} (hI : 
   by_cases hb : b = app
   · subst hb; simp [hap1]
   · simp [hb]
+
+/-- the link layer's hypothesis for a whole pending list: every keep response still pending carries a
+physical qubit the link layer reserved on this controller, and no two of them carry the same one -/
+def PendingEnvOk (c : CState) : Prop :=
+  (∀ r ∈ c.book.pending, r.ty = .K → r.phys.toNat ∈ c.s.reserved) ∧
+  ((c.book.pending.filter (fun r => r.ty = .K)).map (fun r => r.phys.toNat)).Nodup
+
+/-- C13's invariant through a WHOLE delivery / poll: any number of consumptions of either type in the
+order the real loop picks them (induction over the `_handle_pending_epr_responses` loop). The only
+hypothesis is the link layer's (`PendingEnvOk`), and it holds again afterwards. -/
+theorem inv_controller_handlePending {cfg : Cfg} {c c' : CState} (hI : C13.Inv c.s) (he : PendingEnvOk c)
+    (h : Ctl.handlePending cfg c = some c') : C13.Inv c'.s ∧ PendingEnvOk c' := by
+  have hstep : ∀ (c c1 : CState), C13.Inv c.s → PendingEnvOk c → Ctl.handleOne cfg c = .did c1 →
+      C13.Inv c1.s ∧ PendingEnvOk c1 := by
+    intro c c1 hI he h1
+    obtain ⟨pre', r, rest, cy, hl, hy, hc1⟩ := Ctl.scan_did _ _ h1
+    have hl' : c.book.pending = pre' ++ r :: rest := hl
+    have hrmem : r ∈ c.book.pending := by rw [hl']; simp
+    have hIy : C13.Inv cy.s := inv_controller_consume hI hy (he.1 r hrmem)
+    subst hc1
+    refine ⟨hIy, ?_, ?_⟩
+    · intro x hx hK
+      have hx' : x ∈ pre' ∨ x ∈ rest := by simpa using hx
+      have hxm : x ∈ c.book.pending := by
+        rw [hl']; rcases hx' with h | h
+        · exact List.mem_append_left _ h
+        · exact List.mem_append_right _ (List.mem_cons_of_mem _ h)
+      apply Ctl.tryHandle_yes_reserved hy _ (he.1 x hxm hK)
+      intro hrK heq
+      -- two pending keep responses with the same physical qubit contradict `Nodup`
+      have hnd := he.2
+      rw [hl'] at hnd
+      simp only [List.filter_append, List.filter_cons, hrK, decide_true, if_true, List.map_append,
+        List.map_cons] at hnd
+      have hxin : x.phys.toNat ∈ (pre'.filter (fun r => r.ty = .K)).map (fun r => r.phys.toNat) ∨
+          x.phys.toNat ∈ (rest.filter (fun r => r.ty = .K)).map (fun r => r.phys.toNat) := by
+        rcases hx' with h | h
+        · left; exact List.mem_map.mpr ⟨x, List.mem_filter.mpr ⟨h, by simp [hK]⟩, rfl⟩
+        · right; exact List.mem_map.mpr ⟨x, List.mem_filter.mpr ⟨h, by simp [hK]⟩, rfl⟩
+      rw [List.nodup_append] at hnd
+      obtain ⟨_, hnd2, hdisj⟩ := hnd
+      rw [List.nodup_cons] at hnd2
+      rcases hxin with h | h
+      · exact hdisj _ h _ (List.mem_cons_self) heq
+      · exact hnd2.1 (heq ▸ h)
+    · have hnd := he.2
+      rw [hl'] at hnd
+      show (((([] : List Epr.Resp) ++ pre' ++ rest).filter (fun (r : Epr.Resp) => r.ty = .K)).map
+        (fun (r : Epr.Resp) => r.phys.toNat)).Nodup
+      simp only [List.nil_append, List.filter_append, List.map_append]
+      simp only [List.filter_append, List.map_append] at hnd
+      refine List.Nodup.sublist ?_ hnd
+      exact List.Sublist.append_left (List.Sublist.map _ (List.Sublist.filter _ (List.sublist_cons_self _ _))) _
+  have hfuel : ∀ (n : Nat) (c c' : CState), C13.Inv c.s → PendingEnvOk c →
+      Ctl.handlePendingFuel cfg n c = some c' → C13.Inv c'.s ∧ PendingEnvOk c' := by
+    intro n
+    induction n with
+    | zero => intro c c' hI he h; simp [Ctl.handlePendingFuel] at h; subst h; exact ⟨hI, he⟩
+    | succ n ih =>
+      intro c c' hI he h
+      unfold Ctl.handlePendingFuel at h
+      split at h
+      · cases h
+      · injection h with h; subst h; exact ⟨hI, he⟩
+      · rename_i c1 h1
+        obtain ⟨hI1, he1⟩ := hstep c c1 hI he h1
+        exact ih c1 c' hI1 he1 h
+  exact hfuel _ c c' hI he h
+
+/-- … and through `deliver`: the hypothesis is stated on the pending list INCLUDING the new response -/
+theorem inv_controller_deliver {cfg : Cfg} {c c' : CState} (ty : Epr.Ty) (remote purpose dir phys : Int)
+    (fields : List Int) (hI : C13.Inv c.s)
+    (he : PendingEnvOk { c with book := { c.book with
+            pending := c.book.pending ++ [⟨c.book.nextResp, ty, remote, purpose, dir, phys, fields⟩],
+            nextResp := c.book.nextResp + 1,
+            delivered := c.book.delivered ++ [⟨c.book.nextResp, ty, remote, purpose, dir, phys, fields⟩] } })
+    (h : Ctl.deliver cfg c ty remote purpose dir phys fields = some c') : C13.Inv c'.s ∧ PendingEnvOk c' :=
+  inv_controller_handlePending (c := { c with book := { c.book with
+            pending := c.book.pending ++ [⟨c.book.nextResp, ty, remote, purpose, dir, phys, fields⟩],
+            nextResp := c.book.nextResp + 1,
+            delivered := c.book.delivered ++ [⟨c.book.nextResp, ty, remote, purpose, dir, phys, fields⟩] } })
+    hI he h
+
+/-- non-vacuity of the hypotheses of `inv_controller_deliver`: an application, one qubit reserved by the
+link layer (physical 0), a keep response carrying it -/
+example : let c : CState := { Ctl.init 0 with s := [Exec.Op.init 0 2, .reserve].foldl Exec.apply Exec.init0 }
+    C13.Inv c.s ∧
+    PendingEnvOk { c with book := { c.book with pending := c.book.pending ++ [⟨0, .K, 7, 7003, 1, 0, [5, 6]⟩] } } ∧
+    (Ctl.deliver ⟨2, false, fun r s => r * 1000 + s⟩ c .K 7 7003 1 0 [5, 6]).isSome = true := by
+  refine ⟨C13.reachable_from_init [.init 0 2, .reserve] (by decide), ⟨?_, by decide⟩, by decide⟩
+  intro r hr _
+  simp only [Ctl.init, List.nil_append, List.mem_singleton] at hr
+  subst hr
+  decide
 
 /-- C13's invariant through one instruction of any subroutine (Exec's instructions by `Exec.inv_step`;
 the EPR and wait instructions do not touch the `Exec` state) -/
@@ -286,6 +371,7 @@ theorem epr_fault_atomic (cfg : Cfg) (c : CState) (i : Nat) (sb : CSub) (k : Nat
   | waitAll a lo hi => simp only [he]; refine ⟨?_, ?_, ?_⟩ <;> first | trivial | rfl
   | waitAny a lo hi => simp only [he]; refine ⟨?_, ?_, ?_⟩ <;> first | trivial | rfl
   | waitSingle a ix => simp only [he]; refine ⟨?_, ?_, ?_⟩ <;> first | trivial | rfl
+  | measBasis q cr i0 i1 i2 i3 => simp only [he]; refine ⟨?_, ?_, ?_⟩ <;> first | trivial | rfl
 
 /-- a wait whose condition does not hold is a pure yield point: nothing changes -/
 theorem wait_block_unchanged (cfg : Cfg) (c : CState) (i : Nat) (sb : CSub) (k : Nat) (ei : CInstr)
@@ -302,6 +388,7 @@ theorem wait_block_unchanged (cfg : Cfg) (c : CState) (i : Nat) (sb : CSub) (k :
   | waitAll a lo hi => simp only [he]
   | waitAny a lo hi => simp only [he]
   | waitSingle a ix => simp only [he]
+  | measBasis q cr i0 i1 i2 i3 => simp only [he]
 
 /-- the stack refusing a request (fault at the environment boundary) leaves `Exec` state and book
 unchanged in the combined model too -/
